@@ -819,7 +819,31 @@ func ruleNodeLayer(c *Ctx) {
 					return true
 				}
 			}
-			return strings.HasSuffix(base, ".Insert")
+			if strings.HasSuffix(base, ".Insert") {
+				return true
+			}
+			// a helper that only Insert reaches (Insert split into Insert + insert, the split of a
+			// leaf or of a compressed path moved into a function of its own) is part of Insert
+			bu := m.ByName[base]
+			if bu == nil {
+				return false
+			}
+			reachedByInsert, reachedByOther := false, false
+			for _, tk := range m.Trees {
+				for name, mu := range tk.Methods {
+					if mu.Decl == nil || !mu.Decl.Name.IsExported() {
+						continue
+					}
+					if c.reachableFrom([]*FuncUnit{mu})[bu] {
+						if name == "Insert" {
+							reachedByInsert = true
+						} else {
+							reachedByOther = true
+						}
+					}
+				}
+			}
+			return reachedByInsert && !reachedByOther
 		}
 		var stores []ast.Expr
 		ast.Inspect(u.Body, func(n ast.Node) bool {
